@@ -394,12 +394,15 @@ func (in *Interp) assertion(cond *Term, msg string) {
 	default:
 		pr.Inconclusive = append(pr.Inconclusive, "solver unknown on assertion: "+msg+" @ "+in.where())
 	}
+	// After a violated assertion the path continues under the assertion when that
+	// is still possible; when the assertion fails for every input of the path the
+	// path simply goes on (so later cover points and obligations are still seen).
 	if cond.IsFalse() {
-		panic(pathAbort{"assertion concretely false"})
+		return
 	}
 	if r != Unsat {
 		if in.feasible(cond) == Unsat {
-			panic(pathAbort{"assertion always false here"})
+			return
 		}
 	}
 	in.assumeTerm(cond)
